@@ -10,6 +10,7 @@ import (
 	stdhex "encoding/hex"
 	"encoding/json"
 	"fmt"
+	"io"
 	"math"
 	"os"
 	"strings"
@@ -279,6 +280,20 @@ func check(c Case) (string, string) {
 	if g2, err := wkb.Read(rd); err != nil || geomgen.Diff(g, g2, true) != "" || rd.Len() != 3 {
 		return "read-stream", fmt.Sprintf("err=%v remaining=%d", err, rd.Len())
 	}
+	// the environment's answers: a reader that hands out one byte per call, one
+	// that hands out 3 then 5 then 3 .. bytes, and one that returns the last
+	// bytes together with io.EOF (all three are legal io.Readers)
+	for mode := 0; mode < 3; mode++ {
+		sr := &slowReader{data: ref, mode: mode}
+		var g2 geom.Geom
+		var err error
+		if p := try(func() { g2, err = wkb.Read(sr) }); p != "" {
+			return "read-stream-panic|short-reads", fmt.Sprintf("mode %d: %s", mode, p)
+		}
+		if err != nil || geomgen.Diff(g, g2, true) != "" || sr.pos != len(ref) {
+			return "read-stream|short-reads", fmt.Sprintf("mode %d: err=%v consumed=%d of %d", mode, err, sr.pos, len(ref))
+		}
+	}
 	var wb bytes.Buffer
 	if err := wkb.Write(&wb, bo, g); err != nil || !bytes.Equal(wb.Bytes(), ref) {
 		return "write-stream", fmt.Sprintf("err=%v", err)
@@ -305,6 +320,43 @@ func check(c Case) (string, string) {
 	return "", ""
 }
 
+// slowReader is an io.Reader over data that returns short reads.
+type slowReader struct {
+	data []byte
+	pos  int
+	mode int // 0: one byte per call; 1: 3, 5, 3, 5 .. bytes; 2: as much as asked, the last bytes together with io.EOF
+	n    int
+}
+
+func (r *slowReader) Read(p []byte) (int, error) {
+	if len(p) == 0 {
+		return 0, nil
+	}
+	if r.pos >= len(r.data) {
+		return 0, io.EOF
+	}
+	k := len(p)
+	switch r.mode {
+	case 0:
+		k = 1
+	case 1:
+		k = 3 + 2*(r.n%2)
+		r.n++
+	}
+	if k > len(p) {
+		k = len(p)
+	}
+	if k > len(r.data)-r.pos {
+		k = len(r.data) - r.pos
+	}
+	copy(p, r.data[r.pos:r.pos+k])
+	r.pos += k
+	if r.mode == 2 && r.pos == len(r.data) {
+		return k, io.EOF
+	}
+	return k, nil
+}
+
 func main() {
 	tier := "quick"
 	if len(os.Args) > 1 {
@@ -325,7 +377,7 @@ func main() {
 		return
 	}
 	r := report.New("C05", tier, "model_checking")
-	r.Rule = "E1: every structure tree of the 7 encodable types (members 0..2(3), ring/line lengths 0..2(3), collections nested to depth 3) x 12 rotations of a list of twelve 64-bit patterns (full 144 product for points) x {XDR,NDR}: Encode bytes == independent OGC serializer, Decode(Encode) bit-identical, stream Read/Write, hex lower/upper, returned bytes unchanged by later Encode calls; members of 31..5000 vertices (around and beyond the reader's chunk sizes); decode side: every assignment of a byte order to every nested element (all 2^n for n<=8 elements, uniform + single/double flips above). Non-trivial = cases with >=2 nested elements or a non-finite / signed-zero / subnormal coordinate. Large members up to 70000 vertices (hex texts beyond 1 MiB). Many members: 31..70000 members of each multi type / rings / one-point collections, collection chains nested 8..200 deep, complete binary trees of collections of depth 3..7."
+	r.Rule = "E1: every structure tree of the 7 encodable types (members 0..2(3), ring/line lengths 0..2(3), collections nested to depth 3) x 12 rotations of a list of twelve 64-bit patterns (full 144 product for points) x {XDR,NDR}: Encode bytes == independent OGC serializer, Decode(Encode) bit-identical, stream Read/Write (Read also through readers that return one byte per call, 3/5-byte pieces, and the last bytes together with io.EOF), hex lower/upper, returned bytes unchanged by later Encode calls; members of 31..5000 vertices (around and beyond the reader's chunk sizes); decode side: every assignment of a byte order to every nested element (all 2^n for n<=8 elements, uniform + single/double flips above). Non-trivial = cases with >=2 nested elements or a non-finite / signed-zero / subnormal coordinate. Large members up to 70000 vertices (hex texts beyond 1 MiB). Many members: 31..70000 members of each multi type / rings / one-point collections, collection chains nested 8..200 deep, complete binary trees of collections of depth 3..7."
 	cfg := geomgen.Config{MaxMembers: 2, Lens: []int{0, 1, 2}, FlatMax: 2, PolyRings: 2, Depth: 3, GCMembers: 2}
 	if tier == "thorough" {
 		cfg = geomgen.Config{MaxMembers: 3, Lens: []int{0, 1, 2, 3}, FlatMax: 3, PolyRings: 2, Depth: 3, GCMembers: 3}
